@@ -891,6 +891,9 @@ class SendKeyRequest(
                 f"{hex(security_access_type)}"
             )
 
+        if len(security_key) < 1:
+            raise ValueError("The securityKey must not be empty")
+
         self.security_key = security_key
 
     @property
@@ -1302,6 +1305,9 @@ class ReadDataByIdentifierRequest(
         else:
             self.data_identifiers = [data_identifiers]
 
+        if len(self.data_identifiers) < 1:
+            raise ValueError("At least one dataIdentifier is required")
+
         for identifier in self.data_identifiers:
             check_data_identifier(identifier)
 
@@ -1591,6 +1597,9 @@ class DefineByIdentifierRequest(
                 f"{len(self.source_data_identifiers)} != {len(self.memory_sizes)}"
             )
 
+        if len(self.source_data_identifiers) < 1:
+            raise ValueError("At least one source data identifier is required")
+
         for identifier in self.source_data_identifiers:
             check_data_identifier(identifier)
 
@@ -1724,6 +1733,9 @@ class DefineByMemoryAddressRequest(
                 f"memory sizes: "
                 f"{len(self.memory_addresses)} != {len(self.memory_sizes)}"
             )
+
+        if len(self.memory_addresses) < 1:
+            raise ValueError("At least one memory address is required")
 
         max_computed_address_length = 0
         max_computed_size_length = 0
@@ -2054,6 +2066,9 @@ class WriteMemoryByAddressRequest(
                                                      based on the memory_address and memory_size
                                                      or data_record parameters.
         """
+
+        if len(data_record) < 1:
+            raise ValueError("The dataRecord must not be empty")
 
         self.memory_address = memory_address
         self.data_record = data_record
@@ -3203,6 +3218,9 @@ class ShortTermAdjustmentRequest(
                                            input / output parameters, this mask specifies which ones
                                            should be affected by this request.
         """
+        if len(control_states) < 1:
+            raise ValueError("The controlStates must not be empty")
+
         control_option_record = (
             bytes([InputOutputControlParameter.shortTermAdjustment]) + control_states
         )
